@@ -617,7 +617,9 @@ impl Connection {
             _ => 0,
         };
         let token = match self.state {
-            State::Unconnected => unreachable!(),
+            // Only `disconnect` (rejecting a connection that was never
+            // accepted) gets here: no token has been agreed on.
+            State::Unconnected => None,
             // Signal support for the token protocol.
             State::Connecting => Some(TOKEN_NONE),
             State::Pending(ref pending) => pending.token,
